@@ -3,7 +3,7 @@ import ext_engines
 
 # model .vo files the extraction depends on (relative to coq/)
 MODEL_VO = ['gen/Consts.vo', 'gen/CrcTables.vo', 'model/Bytes.vo', 'model/Codec.vo', 'model/Order.vo', 'model/Crc.vo',
-            'model/Block.vo', 'model/Writer.vo', 'model/WriteLoop.vo', 'spec/Leb128.vo', 'spec/Parse.vo', 'model/Reader.vo', 'spec/TableCheck.vo', 'spec/Encode.vo', 'model/Verify.vo', 'model/Compress.vo', 'model/Heap.vo', 'model/Merger.vo', 'model/Sorter.vo', 'model/Fileset.vo', 'model/Ledger.vo', 'model/Pool.vo']
+            'model/Block.vo', 'model/Writer.vo', 'model/WriteLoop.vo', 'spec/Leb128.vo', 'spec/Parse.vo', 'model/Reader.vo', 'spec/TableCheck.vo', 'spec/Encode.vo', 'model/Verify.vo', 'model/Compress.vo', 'model/Heap.vo', 'model/Merger.vo', 'model/Sorter.vo', 'model/Fileset.vo', 'model/Ledger.vo', 'model/Pool.vo', 'proofs/PoolLife.vo']
 # OCaml modules of the driver, in link order
 OCAML_MODULES = ['common', 'gen', 'enc', 'c16', 'wr', 'c20', 'rd', 'c19', 'c17', 'c12', 'c15', 'mg', 'so', 'fs', 'lk', 'pl', 'main']
 C_VARIANTS_SETUP = ('all', 'tsan')
@@ -131,7 +131,8 @@ PROPS = {
         'engines': [{'name': 'pl', 'timeout_quick': 900, 'timeout_thorough': 7200}, {'name': 'wr', 'timeout_quick': 600, 'timeout_thorough': 7200}, {'name': 'so', 'timeout_quick': 600, 'timeout_thorough': 7200}],
         'trusted_base': ['schedule-controlling pthread shim: threadpool.c compiled with -include harness/vp_pthread.h, run by harness/poolsched.c (one thread at a time; mutex/condition state emulated; POSIX semantics of lock/unlock/cond_wait/signal/create/join assumed as emulated there)'],
         'assumptions': ['single caller thread in the LTS (several callers sharing a pool are exercised with real threads under TSan, C14)',
-                        'PARTIAL: T13a (worker count never exceeds the maximum, every schedule) is proved; exactly-once/ordered delivery (T13b_statement) and absence of deadlock (T13d_statement) are stated and checked on every explored schedule',
+                        'hypotheses of T13_no_abort / T13b / T13_exactly_once: the caller program respects the API contract (prog_wf, executable) and a signal wakes only a thread that is blocked on a condition variable (sched_wf); engine pl checks both on every trace',
+                        'absence of deadlock is NOT proved (T13d_refuted shows the statement needs the hypothesis that a signal wakes a waiter if one exists); engine pl reports every deadlock of the real code on the explored schedules',
                         'the writer/sorter clauses (byte-identical file, same entries) are checked with real threads by engines wr and so over pools 0..8; their proof is the composition T13b + purity of the compress/write-chunk jobs, not yet written'],
         'explanation': 'LTS of threadpool.c at pthread-operation granularity (model/Pool.v). Engine pl: the real threadpool.c under controlled schedules - default, every single preemption of it, seeded random with random signal targets and spurious wake-ups, pairs of preemptions (thorough) - replayed on the LTS with the enabled-thread set compared after every step; deadlock, assertion failure, lost/duplicated/reordered results and too many workers are violations.',
     },
